@@ -303,6 +303,35 @@ def wl_bppp_halfagg(u):
             if kk >= 1:
                 pre = pools.rbytes(rng, min(bl, 32 * kk)); u.call("halfagg_inc", pre or b'', bl, bl, b''.join(objs), b''.join(msgs), junk[-1], kk - 1, 1, cls="halfagg")
 
+def wl_crafted(u):
+    """inputs built algebraically so that an INTERMEDIATE point of a verifier is the point at infinity (mutation of valid artifacts
+    and random strings never produce them): every such call must still just return 0/1 (seeded change C07-2)"""
+    from props.c14 import infinity_cases
+    rng = u.rng; ctx = u.ctx
+    for it in range(ctx.n(60, 2000)):
+        for cls, a, X, msg, Y in infinity_cases(rng):
+            Xo = u.call("pubkey_parse", ser33(X), cls="setup", nt=False).b(1); Yo = u.call("pubkey_parse", ser33(Y), cls="setup", nt=False).b(1)
+            u.call("adaptor_verify", a, Xo, msg, Yo, cls="crafted:adaptor:" + cls)
+            dec = u.call("adaptor_decrypt", b32(rng.randrange(1, n)), a, cls="crafted:adaptor:" + cls)
+            if dec is not None and dec.ret == 1: u.call("adaptor_recover", dec.b(1), a, Yo, cls="crafted:adaptor:" + cls)
+        # ECDSA: u1*G + u2*Q = infinity  (Q = -(m/r) G)
+        r_ = rng.randrange(1, n); s_ = rng.randrange(1, (n + 1) // 2); m = rng.randrange(1, n); Q = mulG((-m * pow(r_, -1, n)) % n)
+        so = u.call("sig_parse_compact", b32(r_) + b32(s_), cls="setup", nt=False); qo = u.call("pubkey_parse", ser33(Q), cls="setup", nt=False)
+        if so is not None and qo is not None and so.ret == 1 and qo.ret == 1: u.call("ecdsa_verify", so.b(1), b32(m), qo.b(1), cls="crafted:ecdsa:sum_infinity")
+        # Schnorr: s*G - e*P = infinity (s = e*d), any r
+        d = rng.randrange(1, n); P = mulG(d)
+        if P[1] & 1: d = n - d; P = neg(P)
+        rx = b32(rng.randrange(1, p)); msg = pools.rbytes(rng, rng.choice((0, 32, 32, 100)))
+        e = I(tagged(b"BIP0340/challenge", rx + b32(P[0]) + msg)) % n
+        xo = u.call("xonly_parse", b32(P[0]), cls="setup", nt=False)
+        if xo is not None and xo.ret == 1: u.call("schnorr_verify", rx + b32(e * d % n), msg, xo.b(1), cls="crafted:schnorr:R_infinity")
+        # key combination / tweaks that cancel
+        a_ = rng.randrange(1, n); ka = u.call("pubkey_parse", ser33(mulG(a_)), cls="setup", nt=False); kb = u.call("pubkey_parse", ser33(mulG(n - a_)), cls="setup", nt=False)
+        if ka is not None and kb is not None and ka.ret == 1 and kb.ret == 1:
+            u.call("pubkey_combine", ka.b(1) + kb.b(1), 2, cls="crafted:combine:cancel")
+            u.call("pubkey_tweak_add", ka.b(1), b32(n - a_), cls="crafted:tweak_add:cancel")
+            u.call("xonly_tweak_add", u.call("xonly_from_pubkey", ka.b(1), 1, cls="setup", nt=False).b(1), b32(n - a_ if not (mulG(a_)[1] & 1) else a_), cls="crafted:xonly_tweak_add:cancel")
+
 def libfuzzer(ctx):
     """thorough tier: libFuzzer over the same entry-point families (shim/fuzzdrv.c), bounded by -runs"""
     try:
@@ -335,5 +364,5 @@ def libfuzzer(ctx):
 def run(ctx):
     for config in ctx.configs:
         u = U(ctx, config)
-        wl_keys_sigs(u); wl_musig(u); wl_adaptor_s2c_ell(u); wl_zkp(u); wl_surj_wl(u); wl_bppp_halfagg(u)
+        wl_keys_sigs(u); wl_musig(u); wl_adaptor_s2c_ell(u); wl_zkp(u); wl_surj_wl(u); wl_bppp_halfagg(u); wl_crafted(u)
     if not ctx.quick: libfuzzer(ctx)
